@@ -10,6 +10,8 @@ pub type Finding = (&'static str, &'static str, String);
 #[derive(Clone, Copy, Debug, PartialEq)]
 pub enum GOp {
     Process(f32),
+    /// process(previous output): an input that lands bit-exactly on the output in flight
+    Feedback,
     Hold(f32, u32),
     SetTime(f32),
 }
@@ -85,6 +87,18 @@ impl GlideM {
         if self.prev_x == Some(x) {
             self.held += 1;
         } else {
+            // first sample of a new input: if the output had settled on the previous (held) input, it now moves
+            // from that level toward the new input and cannot pass it
+            if let Some(px) = self.prev_x {
+                if self.held >= 2 && (self.prev_y as f64 - px as f64).abs() <= a && y.is_finite() {
+                    let lo = (px.min(x)) as f64 - a;
+                    let hi = (px.max(x)) as f64 + a;
+                    out.count("steps_from_a_settled_level");
+                    if (y as f64) < lo || (y as f64) > hi {
+                        fnd.push(("C13", "overshoots-step-from-settled-level", format!("output had settled on {:?}; on the first sample of the new input {:?} it is {:?}, outside [{:?}, {:?}]", px, x, y, px.min(x), px.max(x))));
+                    }
+                }
+            }
             self.held = 1;
         }
         if self.held >= 2 && y.is_finite() {
@@ -116,6 +130,7 @@ impl Machine for GlideM {
         for x in self.inputs.iter() {
             out.push(GOp::Process(*x));
         }
+        out.push(GOp::Feedback);
         out.push(GOp::Hold(self.inputs[1], 8));
         out.push(GOp::Hold(self.inputs[0], 8));
         for t in self.tmenu.iter() {
@@ -126,6 +141,11 @@ impl Machine for GlideM {
         let mut fnd: Vec<Finding> = Vec::new();
         match *op {
             GOp::Process(x) => self.sample(x, &mut fnd, out),
+            GOp::Feedback => {
+                let x = self.prev_y;
+                self.sample(x, &mut fnd, out);
+                out.count("feedback_samples");
+            }
             GOp::Hold(x, n) => {
                 for _ in 0..n {
                     self.sample(x, &mut fnd, out);
@@ -167,6 +187,7 @@ impl Machine for GlideM {
     fn op_str(op: &GOp) -> String {
         match op {
             GOp::Process(x) => format!("process:{:?}", x),
+            GOp::Feedback => "process:last".to_string(),
             GOp::Hold(x, n) => format!("process:{:?}*{}", x, n),
             GOp::SetTime(t) => format!("set_time:{:?}", t),
         }
@@ -176,6 +197,7 @@ impl Machine for GlideM {
 pub fn parse_op(s: &str) -> GOp {
     let (a, b) = s.split_once(':').expect("glide op");
     match a {
+        "process" if b == "last" => GOp::Feedback,
         "process" => GOp::Process(parse_f32(b)),
         "set_time" => GOp::SetTime(parse_f32(b)),
         _ => panic!("unknown glide op {}", s),
